@@ -332,7 +332,7 @@ pub async fn dump_corpus(seed: u64, path: &str) -> usize {
     let seeds = seeds(&mut crng, &corpus);
     let mut out = String::new();
     let mut n = 0;
-    let mut push = |dec: Dec, bytes: &[u8], out: &mut String| {
+    let push = |dec: Dec, bytes: &[u8], out: &mut String| {
         out.push_str(dec.name());
         out.push('\t');
         out.push_str(&hex::encode(bytes));
